@@ -517,6 +517,190 @@ theorem sweep_open_closed_of_complete (profile2 : List (Pt2 ℝ)) (path : List (
     rw [h3, ringF_shift_mul, Nat.zero_add] at this; exact this
 
 
+theorem stripRev_indices (n lo hi : Nat) : ∀ f ∈ stripRev n lo hi, f.length = 4 ∧ ∀ v ∈ f, v < (max lo hi + 1) * n := by
+  intro f hf
+  simp only [stripRev, List.mem_map, List.mem_range] at hf
+  obtain ⟨i, hi', rfl⟩ := hf
+  refine ⟨rfl, ?_⟩
+  have hm : (i + 1) % n < n := Nat.mod_lt _ (by omega)
+  have h1 : lo * n + n ≤ (max lo hi + 1) * n := by
+    have : lo + 1 ≤ max lo hi + 1 := by omega
+    calc lo * n + n = (lo + 1) * n := (Nat.succ_mul lo n).symm
+      _ ≤ (max lo hi + 1) * n := Nat.mul_le_mul_right _ this
+  have h2 : hi * n + n ≤ (max lo hi + 1) * n := by
+    have : hi + 1 ≤ max lo hi + 1 := by omega
+    calc hi * n + n = (hi + 1) * n := (Nat.succ_mul hi n).symm
+      _ ≤ (max lo hi + 1) * n := Nat.mul_le_mul_right _ this
+  intro v hv
+  simp only [List.mem_cons, List.not_mem_nil, or_false] at hv
+  rcases hv with rfl | rfl | rfl | rfl <;> omega
+
+theorem mul_mono_lt (a b n : Nat) (h : a + 1 ≤ b) : (a + 1) * n ≤ b * n := Nat.mul_le_mul_right _ h
+
+/-- **C04, full revolve: indices and face sizes.** Every face of a 360° `rotate_extrude` is a quad
+whose four indices refer to existing points. -/
+theorem rotateExtrude_full_valid (profile2 : List (Pt2 ℝ)) (segments : Nat) (p : Polyhedron ℝ)
+    (h : rotateExtrude profile2 360 segments = some p) :
+    p.points.length = segments * profile2.length ∧
+    ∀ f ∈ p.faces, f.length = 4 ∧ ∀ v ∈ f, v < p.points.length := by
+  obtain ⟨⟨_, _, hseg⟩, hp⟩ := C05.rotateExtrude_points profile2 360 segments p h
+  have hlen : p.points.length = segments * profile2.length := by
+    rw [hp]
+    simp only [if_true, List.append_nil, List.length_append, List.length_map]
+    rw [flatMap_length_const _ _ profile2.length (fun j _ => by simp [revolveRing])]
+    simp only [List.length_range]
+    have : segments = (segments - 1) + 1 := by omega
+    conv_rhs => rw [this, Nat.succ_mul]
+    omega
+  refine ⟨hlen, ?_⟩
+  rcases rotateExtrude_faces profile2 360 segments p h with ⟨_, hf⟩ | ⟨hne, _⟩
+  · intro f hfm
+    rw [hf] at hfm
+    rw [hlen]
+    rcases List.mem_append.mp hfm with hfm | hfm
+    · simp only [List.mem_flatMap, List.mem_range] at hfm
+      obtain ⟨j, hj, hfj⟩ := hfm
+      obtain ⟨h4, hv⟩ := stripRev_indices profile2.length j (j + 1) f hfj
+      refine ⟨h4, fun v hvm => ?_⟩
+      have := hv v hvm
+      have hle : (max j (j + 1) + 1) * profile2.length ≤ segments * profile2.length :=
+        Nat.mul_le_mul_right _ (by omega)
+      omega
+    · rw [closing_strip] at hfm
+      obtain ⟨h4, hv⟩ := stripRev_indices profile2.length (segments - 1) 0 f hfm
+      refine ⟨h4, fun v hvm => ?_⟩
+      have := hv v hvm
+      have hle : (max (segments - 1) 0 + 1) * profile2.length ≤ segments * profile2.length :=
+        Nat.mul_le_mul_right _ (by omega)
+      omega
+  · exact absurd rfl hne
+
+/-- the four vertices of a revolve quad are distinct (different rings, n ≥ 2) -/
+theorem stripRev_quad_nodup (n lo hi : Nat) (hne : lo ≠ hi) (hn : 2 ≤ n) : ∀ f ∈ stripRev n lo hi, f.Nodup := by
+  intro f hf
+  simp only [stripRev, List.mem_map, List.mem_range] at hf
+  obtain ⟨i, hi', rfl⟩ := hf
+  have hm : (i + 1) % n < n := Nat.mod_lt _ (by omega)
+  have hs : (i + 1) % n ≠ i := by
+    by_cases h : i + 1 < n
+    · rw [Nat.mod_eq_of_lt h]; omega
+    · have : i + 1 = n := by omega
+      rw [this, Nat.mod_self]; omega
+  have hr : ∀ a b, a < n → b < n → lo * n + a ≠ hi * n + b := by
+    intro a b ha hb heq
+    rcases Nat.lt_or_gt_of_ne hne with h | h
+    · have : (lo + 1) * n ≤ hi * n := Nat.mul_le_mul_right _ h
+      rw [Nat.succ_mul] at this; omega
+    · have : (hi + 1) * n ≤ lo * n := Nat.mul_le_mul_right _ h
+      rw [Nat.succ_mul] at this; omega
+  simp only [List.nodup_cons, List.mem_cons, List.not_mem_nil, or_false, not_or, List.nodup_nil, and_true,
+    not_false_eq_true]
+  refine ⟨⟨hr i i hi' hi', hr i _ hi' hm, by omega⟩, ⟨by omega, fun h => hr _ i hm hi' h.symm⟩, fun h => hr _ _ hm hm h.symm⟩
+
+/-! ### capstone: the oracle's Boolean, as a theorem, for two builders -/
+/-- **C04, full revolve — complete.** For every profile of at least three points and every segment
+count the builder accepts, a 360° `rotate_extrude` satisfies `closedOriented` — the very predicate
+the Lean oracle evaluates on every mesh: every index valid, every face with at least three distinct
+vertices, every directed edge in exactly one face and its reverse in exactly one other face. -/
+theorem rotateExtrude_full_closedOriented (profile2 : List (Pt2 ℝ)) (segments : Nat) (p : Polyhedron ℝ)
+    (h : rotateExtrude profile2 360 segments = some p) (hn : 3 ≤ profile2.length) :
+    closedOriented p.points.length p.faces = true := by
+  obtain ⟨⟨_, _, hseg⟩, _⟩ := C05.rotateExtrude_points profile2 360 segments p h
+  obtain ⟨hlen, hvalid⟩ := rotateExtrude_full_valid profile2 segments p h
+  have hfaces : p.faces = fullStrips profile2.length segments := by
+    rcases rotateExtrude_faces profile2 360 segments p h with ⟨_, hf⟩ | ⟨hne, _⟩
+    · rw [hf, closing_strip]
+      exact fullStrips_eq profile2.length segments (by omega)
+    · exact absurd rfl hne
+  apply closedOriented_of
+  · intro f hf
+    obtain ⟨h4, hv⟩ := hvalid f hf
+    refine ⟨by omega, hv, ?_⟩
+    rw [hfaces] at hf
+    simp only [fullStrips, List.mem_flatMap, List.mem_range] at hf
+    obtain ⟨j, hj, hfj⟩ := hf
+    apply stripRev_quad_nodup profile2.length j ((j + 1) % segments) _ (by omega) f hfj
+    by_cases hj1 : j + 1 < segments
+    · rw [Nat.mod_eq_of_lt hj1]; omega
+    · have : j + 1 = segments := by omega
+      rw [this, Nat.mod_self]; omega
+  · rw [hfaces]; exact fullStrips_nodup profile2.length segments hn hseg
+  · exact rotateExtrude_full_closed profile2 segments p h
+
+theorem strip_quad_nodup (n lo hi : Nat) (hne : lo ≠ hi) (hn : 2 ≤ n) : ∀ f ∈ strip n lo hi, f.Nodup := by
+  intro f hf
+  simp only [strip, List.mem_map, List.mem_range] at hf
+  obtain ⟨i, hi', rfl⟩ := hf
+  have hm : (i + 1) % n < n := Nat.mod_lt _ (by omega)
+  have hs : (i + 1) % n ≠ i := by
+    by_cases h : i + 1 < n
+    · rw [Nat.mod_eq_of_lt h]; omega
+    · have : i + 1 = n := by omega
+      rw [this, Nat.mod_self]; omega
+  have hr : ∀ a b, a < n → b < n → lo * n + a ≠ hi * n + b := by
+    intro a b ha hb heq
+    rcases Nat.lt_or_gt_of_ne hne with h | h
+    · have : (lo + 1) * n ≤ hi * n := Nat.mul_le_mul_right _ h
+      rw [Nat.succ_mul] at this; omega
+    · have : (hi + 1) * n ≤ lo * n := Nat.mul_le_mul_right _ h
+      rw [Nat.succ_mul] at this; omega
+  simp only [List.nodup_cons, List.mem_cons, List.not_mem_nil, or_false, not_or, List.nodup_nil, and_true,
+    not_false_eq_true]
+  refine ⟨⟨by omega, hr i _ hi' hm, hr i i hi' hi'⟩, ⟨hr _ _ hm hm, hr _ i hm hi'⟩, by omega⟩
+
+/-- the point list of a closed sweep has one ring per path point -/
+theorem sweep_closed_points_length (profile2 : List (Pt2 ℝ)) (path : List (Pt3 ℝ)) (twist : ℝ) (p : Polyhedron ℝ)
+    (h : sweep profile2 path twist true = some p) : p.points.length = path.length * profile2.length := by
+  unfold sweep at h
+  simp only [] at h
+  by_cases hl : path.length < 2
+  · simp [hl] at h
+  · simp [hl] at h
+    subst h
+    simp only [List.length_append, C05.sweepRing_length, List.length_map]
+    rw [flatMap_length_const _ _ profile2.length (fun j _ => by simp [sweepRing])]
+    simp only [List.length_range]
+    have : path.length = (path.length - 2) + 1 + 1 := by omega
+    conv_rhs => rw [this, Nat.succ_mul, Nat.succ_mul]
+    omega
+
+/-- **C04, closed sweep — complete.** For every profile of at least three points, every closed path
+of at least three points and every twist, the sweep satisfies the oracle's `closedOriented`. -/
+theorem sweep_closed_closedOriented (profile2 : List (Pt2 ℝ)) (path : List (Pt3 ℝ)) (twist : ℝ) (p : Polyhedron ℝ)
+    (h : sweep profile2 path twist true = some p) (hn : 3 ≤ profile2.length) (hl : 3 ≤ path.length) :
+    closedOriented p.points.length p.faces = true := by
+  have hlen := sweep_closed_points_length profile2 path twist p h
+  have hfaces : p.faces = closedStrips profile2.length path.length := by
+    obtain ⟨_, ⟨_, hf⟩ | ⟨hc, _⟩⟩ := sweep_faces profile2 path twist true p h
+    · have hb : ((List.range (path.length - 2)).flatMap fun j => strip profile2.length j (j + 1)) ++
+          strip profile2.length (path.length - 2) (path.length - 1) = sweepBody profile2.length (path.length - 1) := by
+        have : path.length - 1 = (path.length - 2) + 1 := by omega
+        rw [this, sweepBody_succ]; rfl
+      rw [hf, hb, closing_sweep_strip]
+      exact closedStrips_eq profile2.length path.length (by omega)
+    · simp at hc
+  apply closedOriented_of
+  · intro f hf
+    rw [hfaces] at hf
+    simp only [closedStrips, List.mem_flatMap, List.mem_range] at hf
+    obtain ⟨j, hj, hfj⟩ := hf
+    have hne : j ≠ (j + 1) % path.length := by
+      by_cases hj1 : j + 1 < path.length
+      · rw [Nat.mod_eq_of_lt hj1]; omega
+      · have : j + 1 = path.length := by omega
+        rw [this, Nat.mod_self]; omega
+    have hm : (j + 1) % path.length < path.length := Nat.mod_lt _ (by omega)
+    refine ⟨by rw [strip_quads _ _ _ f hfj]; omega, ?_, strip_quad_nodup _ _ _ hne (by omega) f hfj⟩
+    intro v hv
+    have := strip_indices profile2.length j ((j + 1) % path.length) f hfj v hv
+    rw [hlen]
+    have hle : (max j ((j + 1) % path.length) + 1) * profile2.length ≤ path.length * profile2.length :=
+      Nat.mul_le_mul_right _ (by omega)
+    omega
+  · rw [hfaces]; exact closedStrips_nodup profile2.length path.length hn hl
+  · exact sweep_closed_closed profile2 path twist p h
+
+
 /-! ### enclosed volume (clockwise-outside convention) -/
 /-- six times the signed volume contributed by one face (fan from its first vertex) -/
 noncomputable def faceVol (p : Nat → Pt3 ℝ) : List Nat → ℝ
